@@ -30,7 +30,17 @@ class MetaSim(mosaik_api_v3.Simulator):
         for _ in range(num):
             eid = f"{model}{len(self.eids)}"
             self.eids.append(eid)
-            out.append({"eid": eid, "type": model})
+            ent = {"eid": eid, "type": model}
+            # hierarchical entities: meta["mvf_children"] = list of model names of the children of every
+            # top-level entity (mixed types allowed)
+            kids = []
+            for j, cm in enumerate(self.meta.get("mvf_children", [])):
+                ceid = f"{eid}.{cm}{j}"
+                self.eids.append(ceid)
+                kids.append({"eid": ceid, "type": cm})
+            if kids:
+                ent["children"] = kids
+            out.append(ent)
         return out
 
     def setup_done(self):
